@@ -1,7 +1,7 @@
 (* C04 — schema evolution: unknown fields are skipped exactly, absent optionals take defaults. Statements only. *)
 From Coq Require Import List NArith ZArith.
 From TarsV Require Import Base.Hex Codec.Wire Codec.Skip Codec.SkipProofs Codec.Prim Codec.GenCodec Codec.Corr Codec.GenProofs
-  Codec.RoundTrip Codec.RoundTripProofs.
+  Codec.RoundTrip Codec.RoundTripProofs Codec.NestedProofs.
 Import ListNotations.
 Open Scope N_scope.
 
@@ -70,19 +70,34 @@ Theorem C04_reuse_refuted :
   = DOk (VStruct [VInt 5; VStr [98; 111; 111; 109]]) [].
 Proof. exact GenProofs.reuse_refuted_witness. Qed.
 
-(* full statement of the first clause, kept visible: unknown fields also INSIDE nested struct values (between
-   the members of a struct-typed member, vector element or map value). Proved above for the top-level member
-   sequence; inside nested values it rests on skip_exact + the checked correspondence (the harness inserts
-   unknown fields inside nested structs on every run). *)
-Definition C04_extras_nested_statement : Prop :=
-  forall (e : env) (k : nat) (sid : nat) (clean extended : list N) v,
-    wf_schema k e -> decode e sid clean = DOk v [] ->
-    (* [extended] = [clean] with well-formed unknown fields merged in tag order at any struct level *) True ->
-    decode e sid extended = DOk v [].
+(* FIRST CLAUSE AT FULL STRENGTH: unknown fields at EVERY struct level. xfields e fds vs Js body (RoundTrip.v: xenc)
+   says that body encodes the members vs with the groups Js of unknown fields in front of the members, and that
+   every struct value nested in them - as a member, vector/array element, map key or value, at any depth - again
+   carries arbitrary groups of well-formed unknown fields in front of its members and after its last member. For
+   every wf_schema environment, every struct type with a finite type graph and every well-typed value, such an
+   encoding followed by trailing unknown fields decodes to the same value as the clean encoding, and the cursor
+   stops in front of the trailing top-level unknown fields. *)
+Theorem C04_extras_nested : forall e k n sid vs Js body Jl,
+  wf_schema k e -> (S k <= 64)%nat -> tfin n e (TStruct sid) = true -> (tneed n e (TStruct sid) + k <= 64)%nat ->
+  has_type e (TStruct sid) (VStruct vs) ->
+  xfields e (fields_of e sid) vs Js body -> junks_ok None (fields_of e sid) Js -> trailing_ok (fields_of e sid) Jl ->
+  decode e sid (body ++ ser_fields Jl) = DOk (norm_struct e sid (VStruct vs)) (ser_fields Jl)
+  /\ decode e sid (encode e sid (VStruct vs)) = DOk (norm_struct e sid (VStruct vs)) [].
+Proof. exact NestedProofs.extras_nested. Qed.
+(* the same for any struct type (recursive ones included) and any admissible target, with the explicit fuel hypothesis *)
+Theorem C04_extras_nested_into : forall e k sid vs prior Js body tail,
+  wf_schema k e -> has_type e (TStruct sid) (VStruct vs) -> zlike e (TStruct sid) prior ->
+  xfields e (fields_of e sid) vs Js body -> junks_ok None (fields_of e sid) Js ->
+  (forall fd, In fd (fields_of e sid) -> follows (ftag fd) tail) ->
+  (need_list vs + k + 3 <= 2 * length (body ++ tail) + 64)%nat ->
+  decode_into e sid prior (body ++ tail) = DOk (norm_struct e sid (VStruct vs)) tail.
+Proof. exact NestedProofs.decode_into_nested. Qed.
 
 Print Assumptions C04_skip_exact.
 Print Assumptions C04_extras_ignored.
 Print Assumptions C04_extras_ignored_into.
+Print Assumptions C04_extras_nested.
+Print Assumptions C04_extras_nested_into.
 Print Assumptions C04_member_absent_required.
 Print Assumptions C04_required_absent.
 Print Assumptions C04_member_absent_optional.
